@@ -3,7 +3,7 @@
    and Proofs/Tensor.v (the concrete per-class actions S1.A.S and the two-pass tensor transformation).
    Model in Model/C04.v (executable instance Model/C04x.v is what the correspondence check runs). *)
 From Coq Require Import ZArith List Bool Arith.
-From QV Require Import Base.Alg Base.Sums Base.Mat Base.Tens Base.Group Model.C04 Proofs.C04 Proofs.Tensor.
+From QV Require Import Base.Alg Base.Sums Base.Mat Base.Tens Base.Group Model.C04 Proofs.C04 Proofs.Tensor Proofs.C04gen.
 Import ListNotations.
 
 (* EVERY program (creation, reads, writes, protection, apply-with-copy, arbitrarily nested contexts,
@@ -114,3 +114,55 @@ Print Assumptions c04_stale_copy_refuted.
 Example c04_hypotheses_satisfiable :
   Inv unit nat (mkM unit nat [] [] (fun _ => None)) /\ repaired unit nat (stale_prog CopyRegistered) = true.
 Proof. split; [apply Inv_fresh|reflexivity]. Qed.
+
+(* The same at the level of the Python state (Proofs/C04gen.v): Manager.basis_stack, basis_transformations, basis_registered,
+   current_basis_operator, _in_eigenbasis_of_context and the tagged objects, run by the step functions transcribed statement by
+   statement from core/managers.py, utils/types.py, the constructors and SuperOperator.apply (the generated file GenC04b.v proves
+   on every run that the current source still gives these step functions).  EVERY program run outside every context ends with
+   basis_stack = [0], basis_transformations = [1], basis_registered = {}, the flag cleared, current_basis_operator put back, no
+   stale tag, every unprotected object the program did not overwrite back in its original representation - and it raises and
+   reads exactly what Model.C04.exec says.  act2 a b stands for transform(a, inv=b). *)
+Theorem c04_python_bookkeeping_restores : forall (G X : Type) (gid : G) (gmul : G -> G -> G) (ginv : G -> G)
+  (act : G -> X -> X) (act2 : G -> G -> X -> X) (app : X -> X -> X),
+  (forall a b c, gmul a (gmul b c) = gmul (gmul a b) c) -> (forall a, gmul gid a = a) -> (forall a, gmul a gid = a) ->
+  (forall a, gmul a (ginv a) = gid) -> (forall a, gmul (ginv a) a = gid) ->
+  (forall x, act gid x = x) -> (forall g h x, act (gmul g h) x = act h (act g x)) ->
+  (forall a b x, gmul a b = gid -> act2 a b x = act a x) ->
+  forall (p : prog G X) (ps : pst G X), repaired G X p = true -> PTop G X gid ps ->
+  let '(ps', r, obs) := mexec G X (py_steps G X gid gmul ginv act act2 app) p ps in
+  PTop G X gid ps' /\ cbo G X ps' = cbo G X ps /\
+  (forall j o, ~ In j (writes G X p) -> pheap G X ps j = Some o -> prot X o = false ->
+     exists o', pheap G X ps' j = Some o' /\ dat X o' = dat X o /\ tag X o' = 0%nat /\ prot X o' = false) /\
+  (let '(s', r0, obs0) := exec G X gid gmul ginv act app p (abs_top G X ps) in r = r0 /\ obs = obs0).
+Proof.
+  intros G X gid gmul ginv act act2 app A1 A2 A3 A4 A5 A6 A7 A8 p ps.
+  exact (py_top_level_restores G X gid gmul ginv act act2 app A1 A2 A3 A4 A5 A6 A7 A8 p ps).
+Qed.
+Print Assumptions c04_python_bookkeeping_restores.
+
+(* inside any nesting the Python state represents the model state (stack = [0..depth], transformations innermost last, the
+   dictionary = the aligned registration lists, same heap), the flag is set exactly inside a context, the operator of the
+   enclosing context is restored, and the run raises / reads what the model run does *)
+Theorem c04_python_machine_simulates_model : forall (G X : Type) (gid : G) (gmul : G -> G -> G) (ginv : G -> G)
+  (act : G -> X -> X) (act2 : G -> G -> X -> X) (app : X -> X -> X),
+  (forall a b c, gmul a (gmul b c) = gmul (gmul a b) c) -> (forall a, gmul gid a = a) -> (forall a, gmul a gid = a) ->
+  (forall a, gmul a (ginv a) = gid) -> (forall a, gmul (ginv a) a = gid) ->
+  (forall x, act gid x = x) -> (forall g h x, act (gmul g h) x = act h (act g x)) ->
+  (forall a b x, gmul a b = gid -> act2 a b x = act a x) ->
+  forall (p : prog G X) (ps : pst G X) (s : mst G X), repaired G X p = true -> Inv G X s -> RepX G X gid None ps s -> Flag G X ps s ->
+  let '(ps', r', o') := mexec G X (py_steps G X gid gmul ginv act act2 app) p ps in
+  let '(s', r, o) := exec G X gid gmul ginv act app p s in
+  RepX G X gid None ps' s' /\ Flag G X ps' s' /\ cbo G X ps' = cbo G X ps /\ r' = r /\ o' = o.
+Proof.
+  intros G X gid gmul ginv act act2 app A1 A2 A3 A4 A5 A6 A7 A8 p ps s.
+  exact (mexec_sim G X gid gmul ginv act act2 app A1 A2 A3 A4 A5 A6 A7 A8 p ps s).
+Qed.
+Print Assumptions c04_python_machine_simulates_model.
+
+(* non-vacuity: the Manager as constructed is a state outside every context and represents the fresh model state; act2 a b = act a
+   satisfies the law asked of transform(a, inv=b) *)
+Example c04_python_hypotheses_satisfiable :
+  PTop unit nat tt (py_init unit nat tt) /\ RepX unit nat tt None (py_init unit nat tt) (mkM unit nat [] [] (fun _ => None)) /\
+  Flag unit nat (py_init unit nat tt) (mkM unit nat [] [] (fun _ => None)) /\
+  (forall (a b : unit) (x : nat), (fun _ _ => tt) a b = tt -> (fun (a _ : unit) (x : nat) => (fun _ x => x) a x) a b x = (fun (_ : unit) (x : nat) => x) a x).
+Proof. split; [apply PTop_init|]. split; [apply Rep_init|]. split; [apply Flag_init|reflexivity]. Qed.
